@@ -10,7 +10,8 @@
  *   LD_PRELOAD  : gcc -shared -fPIC shim_readdir.c -o shim_readdir.so -ldl
  *                 (interposes readdir, readdir64, closedir of an un-instrumented tool)
  *   linked in   : compile with -DSHIM_WRAP and link with
- *                 -Wl,--wrap=readdir,--wrap=readdir64,--wrap=closedir   (works under ASan)
+ *                 -Wl,--wrap=readdir,--wrap=readdir64,--wrap=closedir   (works under ASan);
+ *                 add -DSHIM_LOG_FILE to log to VERIF_READDIR_LOG instead of memory (whole tools)
  *
  * Environment (read at every first readdir of a stream, so an in-process harness may change it between cases):
  *   VERIF_READDIR_ORDER = native | sorted | reverse | seed:<n>     (default: native = pass through, still logged)
@@ -43,6 +44,9 @@ struct dirent *__real_readdir(DIR *d);
 int __real_closedir(DIR *d);
 #define REAL_READDIR(d) __real_readdir(d)
 #define REAL_CLOSEDIR(d) __real_closedir(d)
+#endif
+
+#if defined(SHIM_WRAP) && !defined(SHIM_LOG_FILE)
 static char *shim_logbuf;
 static size_t shim_loglen, shim_logmax;
 static void shim_log_append(const char *s, size_t n)
@@ -68,6 +72,7 @@ char *shim_readdir_take_log(void)
 	return r;
 }
 #else
+#ifndef SHIM_WRAP
 static struct dirent *(*real_readdir_p)(DIR *);
 static int (*real_closedir_p)(DIR *);
 static struct dirent *call_real_readdir(DIR *d)
@@ -84,6 +89,7 @@ static int call_real_closedir(DIR *d)
 }
 #define REAL_READDIR(d) call_real_readdir(d)
 #define REAL_CLOSEDIR(d) call_real_closedir(d)
+#endif
 static void shim_log_append(const char *s, size_t n)
 {
 	const char *path = getenv("VERIF_READDIR_LOG");
